@@ -505,6 +505,8 @@ class Lab:
             "market_closed": market.closed,
             "cleared_flags": (len(market.orders_cleared), len(market.market_cleared)),
             "book_is": market_book,
+            # the per-runner matching state the simulated middleware exposes for this market (objects kept alive)
+            "sim_state": list((market.context.get("simulated") or {}).values()) if hasattr(market, "context") else [],
         }
         if self.snapshots:
             rec["orders"] = [snap_order(o) for o in market.blotter]
